@@ -44,7 +44,8 @@ PROPS = {
     },
     'C02': {
         'title': 'Rollback',
-        'units': [('crash', 2000, 40000), ('foreign', 400, 6000), ('regress', 0, 0)],
+        'units': [('crash', 2000, 40000), ('forcrash', 800, 15000), ('foreign', 400, 6000),
+                  ('regress', 0, 0)],
         'owned': {'ExcIdentity', 'RollbackRestores', 'ExceptionPropagates', 'ExceptionClassMatches',
                   'TempDirRemoved', 'ForeignUntouched'},
         'after_rollback_all': True,      # "a subsequent build behaves exactly as if the failed build had never run"
@@ -54,7 +55,8 @@ PROPS = {
     },
     'C03': {
         'title': 'Foreign files',
-        'units': [('foreign', 2000, 40000), ('clean', 500, 8000), ('crash', 300, 5000)],
+        'units': [('foreign', 1500, 30000), ('forcrash', 1500, 30000), ('clean', 400, 8000),
+                  ('crash', 300, 5000)],
         'owned': {'ForeignUntouched'},
         'nontrivial': lambda st, sc: st['commit'] + st['rollback'] + st['clean'] > 1,
         'rule': 'foreign files planted inside created directories, at former output positions and next to '
